@@ -441,6 +441,9 @@ func verifyAndFillConfig(cfg *ResponseConfig, nowMS int) error {
 	if cfg.PeriodsPerHour != nil && (*cfg.PeriodsPerHour < 1 || *cfg.PeriodsPerHour > 3600) {
 		return fmt.Errorf("periods per hour must be in the range 1 to 3600")
 	}
+	if cfg.TimeSubsDurMS <= 0 {
+		return fmt.Errorf("timesubsdur must be > 0")
+	}
 	if cfg.ContMultiPeriodFlag && cfg.PeriodsPerHour == nil {
 		return fmt.Errorf("period continuity set, but not multiple periods per hour")
 	}
